@@ -196,9 +196,71 @@ def relational(run, seed, models, nproblems):
                 val = lnl(name, tree.rooted_with_tip(t), aln, params, mprobs)
                 if reversible:
                     expect("MoveRootBesideTip", val)
+    # wide polytomies: many children under one node (site patterns are indexed per node from the children's patterns)
+    ncases += polytomy_cases(run, rnd)
     # non-vacuity of the reversibility guard: root placement DOES matter for non-reversible models
     run.note("root_matters_for_non_reversible", {m: any(v) for m, v in guards.items()})
     return ncases
+
+
+def polytomy_cases(run, rnd):
+    """Star trees with many tips: column order, child order and repetition must not matter, and lnL must equal the
+    sum of the single-column lnLs (columns are independent)."""
+    from cogent3 import make_aligned_seqs, make_tree
+
+    n = 0
+    for model, kind, ntips, ncols in (("HKY85", "nucleotide", 24, 48), ("GY94", "codon", 11, 14)):
+        tips = [f"t{i:02d}" for i in range(ntips)]
+        lens = [round(rnd.uniform(0.05, 0.4), 3) for _ in tips]
+        nwk = "(" + ",".join(f"{t}:{l}" for t, l in zip(tips, lens)) + ");"
+        tree = make_tree(nwk)
+        if kind == "nucleotide":
+            alpha, ml = list("ACGT"), 1
+        else:
+            alpha, ml = [a + b + c for a in "TCAG" for b in "TCAG" for c in "TCAG" if a + b + c not in ("TAA", "TAG", "TGA")], 3
+        cols = []
+        for c in range(ncols):
+            base = rnd.choice(alpha)
+            col = [base] * ntips
+            # most columns differ only in the first few children; a few differ elsewhere
+            for k in rnd.sample(range(3), rnd.randint(1, 3)) if c % 4 else rnd.sample(range(ntips), 3):
+                col[k] = rnd.choice(alpha)
+            cols.append(col)
+        seqs = {t: "".join(c[i] for c in cols) for i, t in enumerate(tips)}
+        aln = make_aligned_seqs(seqs, moltype="dna")
+        params = {"kappa": 2.5} if model == "HKY85" else {"kappa": 2.5, "omega": 0.6}
+        mprobs = {b: p for b, p in zip("TCAG", (0.2, 0.3, 0.15, 0.35))} if model == "HKY85" else None
+        base_lnl = lnl(model, tree, aln, params, mprobs)
+        tol = KIND_RTOL[kind]
+
+        def expect(tag, value, want=base_lnl):
+            nonlocal n
+            n += 1
+            if not close(value, want, tol):
+                run.fail(f"polytomy:{kind}:{tag}", {"model": model, "ntips": ntips, "lnL_before": want, "lnL_after": value, "newick": nwk, "alignment": seqs}, what=f"lnL changed under {tag} on a {ntips}-tip star tree ({model})")
+
+        ncol = len(aln) // ml
+        rev = [p * ml + j for p in reversed(range(ncol)) for j in range(ml)]
+        expect("ReverseColumns", lnl(model, tree, aln.take_positions(rev), params, mprobs))
+        order = list(zip(tips, lens))
+        order.reverse()
+        expect("ReverseChildren", lnl(model, make_tree("(" + ",".join(f"{t}:{l}" for t, l in order) + ");"), aln, params, mprobs))
+        expect("ReorderSeqs", lnl(model, tree, aln.take_seqs(list(reversed(tips))), params, mprobs))
+        if mprobs is not None or True:
+            # columns are independent: lnL = sum over columns of the single-column lnL (same fixed motif probs)
+            mp = mprobs
+            if mp is None:
+                from cogent3 import get_model
+
+                lf0 = get_model(model).make_likelihood_function(tree)
+                lf0.set_alignment(aln)
+                mp = lf0.get_motif_probs().to_dict()
+                base2 = lnl(model, tree, aln, params, mp)
+            else:
+                base2 = base_lnl
+            tot = sum(lnl(model, tree, aln[p * ml : (p + 1) * ml], params, mp) for p in range(ncol))
+            expect("SumOfSingleColumns", tot, want=base2)
+    return n
 
 
 def exact_family(run, scratch, cfg):
